@@ -212,7 +212,7 @@ Stop(n)        == Start /\ ImplStop(n) /\ GhostStop(n, IdleNotice(n)) /\ Step("S
 Nxt ==
   \E n \in Allocs :
      \/ Next(n)
-     \/ \E x \in Floors : GTLast(n, x)
+     \/ \E x \in {0, last[n] - 1} \cap Floors : GTLast(n, x)    \* every x < last acts alike: lowest and boundary
      \/ \E x \in Floors : GTBatch(n, x)
      \/ \E x \in Floors : GTBegin(n, x)
      \/ GTFinish(n)
